@@ -150,6 +150,50 @@ def canApplyRecursion (g : Graph) (ut : String) (gn : GNode) (newStrategy : Bool
     (r.1, r.2 && newStrategy)
   else (none, false)
 
+/-! ### well-formedness of the dumped graph (what the pruning steps rely on; evaluated per case by the driver) -/
+
+/-- nodes whose edges are alternatives: relations, logical groupings, union operators -/
+def GNode.unionLike (n : GNode) : Bool := n.ntype = 1 || n.ntype = 4 || n.ntype = 5 || (n.ntype = 2 && n.label = "union")
+
+/-- *Local weight consistency*: a node has a weight for the user type exactly when its edges justify it
+(some edge for alternatives, every edge for an intersection, the base edge for an exclusion); an edge into a
+relation / operator / grouping node has one exactly when that node has one (a direct or tuple-to-userset edge
+whose target *is* the userset of the request always has one); edges and nodes exist; an exclusion has two operands. -/
+def wfWeights (g : Graph) (ut : String) : Bool :=
+  g.nodes.all (fun n =>
+    let es := g.out n.name
+    if n.ntype = 0 || n.ntype = 3 then true
+    else if es.isEmpty then false
+    else if n.name = ut then true    -- the userset of the request itself: the graph records weight 1 / infinite for it
+    else if n.unionLike then n.weight.isSome = es.any (fun e => e.weight.isSome)
+    else if n.ntype = 2 && n.label = "intersection" then n.weight.isSome = es.all (fun e => e.weight.isSome)
+    else if n.ntype = 2 && n.label = "exclusion" then
+      (match es with
+       | [b, _] => n.weight.isSome = b.weight.isSome
+       | _ => false)
+    else false) &&
+  g.edges.all (fun e =>
+    match g.node? e.src, g.node? e.dst with
+    | some _, some t =>
+      if t.ntype = 0 then e.weight.isSome = (t.name = ut)
+      else if t.ntype = 3 then e.weight.isSome = (t.name = ut ++ ":*")
+      else if (e.etype = 0 || e.etype = 2) && e.dst = ut then e.weight.isSome
+      else e.weight.isSome = t.weight.isSome
+    | _, _ => false)
+
+/-- *Wildcard consistency*: the wildcard set of a node contains that of each of its edges; an edge into a typed
+wildcard carries its type, any other edge the wildcard set of its target. -/
+def wfWildcards (g : Graph) : Bool :=
+  g.edges.all (fun e =>
+    match g.node? e.src, g.node? e.dst with
+    | some s, some t =>
+      e.wildcards.all (fun x => s.wildcards.contains x) &&
+      (if t.ntype = 3 then e.wildcards.contains (t.name.dropEnd 2).toString
+       else t.wildcards.all (fun x => e.wildcards.contains x) && e.wildcards.all (fun x => t.wildcards.contains x))
+    | _, _ => false)
+
+def wfGraph (g : Graph) (ut : String) : Bool := wfWeights g ut && wfWildcards g
+
 /-! ### reads -/
 
 /-- `evaluateCondition` -/
